@@ -25,18 +25,19 @@ type c18Prog struct {
 }
 
 type c18Gen struct {
-	r       *core.Rng
-	lines   []string
-	ints    []string
-	strs    []string
-	slices  []string
-	maps    []string
-	structs []string // instances
-	funcs   []string
-	globals []string
-	hasType bool
-	lits    []string
-	n       int
+	r                 *core.Rng
+	lines             []string
+	ints              []string
+	strs              []string
+	slices            []string
+	maps              []string
+	structs           []string // instances
+	funcs             []string
+	globals           []string
+	hasType           bool
+	lits              []string
+	hasPkgs, hasNamed bool
+	n                 int
 }
 
 func (g *c18Gen) name(p string) string   { g.n++; return fmt.Sprintf("%s%d", p, g.n) }
@@ -135,6 +136,30 @@ func (g *c18Gen) step() {
 		}
 		g.add("if %s() >= 0 { q := &T{A: %d, S: \"b\"}; %s += q.A + q.Double() }", f, g.r.Intn(9), v)
 		g.add("for i := 0; i < 2; i++ { q := &T{A: i}; q.Add(%s()); %s += q.A }", f, v)
+	case k < 9 && g.r.Chance(1, 5) && !g.hasPkgs:
+		// script packages imported by separate statements (two of them share their package name)
+		g.hasPkgs = true
+		g.add("import (cw \"wire/codec\")")
+		g.add("println(cw.Tag, cw.Size(%d))", g.r.Intn(9))
+		g.add("import (cd \"disk/codec\")")
+		g.add("println(cd.Tag, cd.Size(%d), cw.Tag)", g.r.Intn(9))
+		g.add("import \"util\"")
+		g.add("println(util.Inc(), util.Count)")
+	case k < 9 && g.r.Chance(1, 5) && !g.hasNamed:
+		// named scalar types: a block-local type of the same name, the type declared again, identical statements
+		// before and after it
+		g.hasNamed = true
+		g.add("type Nf float64")
+		g.add("type U int8")
+		g.add("nacc := 0")
+		g.add("nacc += int(U(200))")
+		g.add("if nacc < 0 { type Nf byte; var q Nf = 200; q += 100; println(\"blk\", q) }")
+		g.add("var wn Nf = 7")
+		g.add("println(wn / 2)")
+		g.add("type U uint8")
+		g.add("nacc += int(U(200))")
+		g.add("println(nacc)")
+		g.globals = append(g.globals, "nacc", "wn")
 	case k < 9 && g.r.Chance(1, 4) && len(g.ints) > 0:
 		// an init function runs where it stands
 		v := ""
@@ -358,6 +383,13 @@ type c18Obs struct {
 	Globals map[string]string `json:"globals"`
 }
 
+// c18FS: two script packages with one package name under different import paths, and a third one.
+var c18FS = core.MapFS(map[string]string{
+	"wire/codec/codec.go": "package codec\n\nvar Tag = \"wire\"\n\nfunc Size(n int) int {\n\treturn n + 1\n}\n",
+	"disk/codec/codec.go": "package codec\n\nvar Tag = \"disk\"\n\nfunc Size(n int) int {\n\treturn n * 4\n}\n",
+	"util/util.go":        "package util\n\nvar Count = 10\n\nfunc Inc() int {\n\tCount++\n\treturn Count\n}\n",
+})
+
 func c18Run(p c18Prog, cuts []int) (c18Obs, bool) {
 	m := core.NewMachine(core.VMOpts{Optimize: true, Obs: core.NewObs(core.SmallBudget, false, nil)})
 	imports := map[string]string{}
@@ -366,7 +398,7 @@ func c18Run(p c18Prog, cuts []int) (c18Obs, bool) {
 	var last core.Outcome
 	for i := 0; i+1 < len(bounds); i++ {
 		chunk := strings.Join(p.Lines[bounds[i]:bounds[i+1]], "\n")
-		last = m.Eval(nil, chunk, goatlang.WithEvalImports(imports))
+		last = m.Eval(c18FS, chunk, goatlang.WithEvalImports(imports))
 		if last.Panic != "" {
 			obs.Err = "PANIC " + last.Panic
 			return obs, false
@@ -416,7 +448,7 @@ type c18Case struct {
 }
 
 func runC18(r *core.Run) {
-	r.SetRule("generated sequences of 5-15 single-line top-level statements (import, const, var with and without initialiser, :=, typed byte arithmetic, assignments, op-assign, parallel assignment, if/else-if with init, for, range, switch with multi-value cases - all with block-local variables -, function, method and type definitions before use, calls, slice/map/struct mutation, printing, block header variables named like existing globals, function literals declaring same-named local types, functions with a local type named like a global one followed by package-level blocks using the global one, init functions between statements, a final non-call expression); one program in fifteen is long (50-140 top-level block statements before further range loops); every set of cut points between statements for programs of up to 8 statements, 64 random cut sets beyond. non-trivial = the whole-program evaluation succeeds and defines at least one global; distinct by (program, cut set)")
+	r.SetRule("generated sequences of 5-15 single-line top-level statements (import, const, var with and without initialiser, :=, typed byte arithmetic, assignments, op-assign, parallel assignment, if/else-if with init, for, range, switch with multi-value cases - all with block-local variables -, function, method and type definitions before use, calls, slice/map/struct mutation, printing, block header variables named like existing globals, function literals declaring same-named local types, functions with a local type named like a global one followed by package-level blocks using the global one, init functions between statements, script packages imported by separate statements (two sharing a package name), named scalar types with a block-local namesake and a later re-declaration around identical statements, a final non-call expression); one program in fifteen is long (50-140 top-level block statements before further range loops); every set of cut points between statements for programs of up to 8 statements, 64 random cut sets beyond. non-trivial = the whole-program evaluation succeeds and defines at least one global; distinct by (program, cut set)")
 	r.Assume("metamorphic relation; cuts fall only on top-level statement boundaries; successive Evals share one WithEvalImports map as the REPL does")
 	n := r.N(400, 12000)
 	core.Parallel(n, func(i int) {
